@@ -4,7 +4,8 @@ tier=${1:-quick}
 cd "$(dirname "$0")/.."
 [ -n "$VP_RUN_REPO" ] && export REPO=$VP_RUN_REPO
 ./check --build
-for p in C01 C02 C03 C04 C05 C06 C07 C08 C09 C10 C11 C12 C13 C14 C15 C16 C17 C18 C19 C20; do
+props=${2:-"C01 C02 C03 C04 C05 C06 C07 C08 C09 C10 C11 C12 C13 C14 C15 C16 C17 C18 C19 C20"}
+for p in $props; do
   t0=$(date +%s)
   ./check $p $tier > /tmp/all_${tier}_$p.log 2>&1; code=$?
   t1=$(date +%s)
